@@ -14,6 +14,7 @@ import GoProbeModel.Spec.C03
 import GoProbeModel.Spec.C09
 import GoProbeModel.Spec.C24
 import GoProbeModel.Spec.C31
+import GoProbeModel.Spec.C05
 
 /-!
 `gpjudge`: executable specs. Reads lines `<Cxx> <case fields…> => <implementation output>` and
@@ -35,5 +36,6 @@ def main : IO Unit := DriverLoop.runJudge [
   ("C03", C03.judge),
   ("C09", C09.judge),
   ("C24", C24.judge),
-  ("C31", C31.judge)
+  ("C31", C31.judge),
+  ("C05", C05.judge)
 ]
